@@ -218,6 +218,18 @@ def check(run, ctx):
     if extra:
         run.finding(U3, "_dispatch_by_language", f"extra:{sorted(extra)}", f"dispatch also admits {sorted(extra)}", base.loc)
 
+    from . import shared
+
+    U5 = run.rule("U5", "language detection is recomputed from the file: no functools cache sits on a function from which a file read is reachable", floor=1,
+                  decides="a file whose first line changes is analysed as the language it has now, not the one it had at its first lint")
+    recs = shared.cached_content_readers(ctx)
+    bad = [r_ for r_ in recs if r_["reads"]]
+    for r_ in bad:
+        run.finding(U5, r_["func"], f"cached-reader:{r_['decorator']}", f"{r_['func']} is memoised with @{r_['decorator']} but its result depends on file content ({', '.join(r_['reads'][:2])}): the answer of the first call is frozen for the life of the process", r_["loc"])
+    ds = repo.func("src.orchestrator.language_detector._detect_from_shebang")
+    if not any(r_["func"].endswith("_detect_from_shebang") for r_ in bad):
+        run.ok(U5, "language_detector._detect_from_shebang", f"not memoised (decorators: {ds.decorators or 'none'}); {len(recs)} cached functions in src, none reads files")
+
     U4 = run.rule("U4", "the configuration sections a rule reads are its own (no rule reads another linter's section)", floor=15)
     reads = {r.short: {k.key.replace("-", "_") for k in CF.section_key_reads(L, r) if not k.key.startswith("_") and k.key != "project_root"} for r in L.rules}
     for r in L.rules:
